@@ -39,7 +39,7 @@ TrReset ==
     /\ user' = None /\ q' = NoQ /\ c' = NoQ /\ qT' = <<ZeroT, ZeroT>> /\ cT' = <<ZeroT, ZeroT>> /\ nops' = 0
     /\ sch' = NoSched /\ span' = NoSpan /\ cur' = 0 /\ hist' = <<>> /\ hdone' = TRUE
     /\ lprev' = 0 /\ live' = <<>> /\ ldone' = TRUE
-    /\ declared' = {} /\ children' = <<>> /\ issued' = {} /\ refused' = FALSE
+    /\ declared' = {} /\ children' = <<>> /\ defrp' = "" /\ issued' = {} /\ refused' = FALSE
     /\ tcfg' = NoCfg
 
 (* ------------------------------------------------------------------------ *)
@@ -98,6 +98,7 @@ TrTask ==
     /\ tcfg' = Ln.cfg
     /\ user' = Ln.cfg.user /\ sch' = SchOf(Ln.cfg)
     /\ declared' = SeqToSet(Ln.cfg.declared) /\ children' = << Child("ql", Ln.cfg.sources) >>
+    /\ defrp' = Ln.cfg.defaultRP
     /\ UNCHANGED <<mode, q, c, qT, cT, nops, span, cur, hist, hdone, lprev, live, ldone, issued, refused>>
 
 (* group-by / fill / sources of an issued statement are the configured ones *)
@@ -138,12 +139,12 @@ TrHistRet ==
              ELSE Ln.err # "" /\ Ln.qs = <<>>)
     /\ issued' = issued \cup UNION { SeqToSet(Ln.qs[i].srcs) : i \in DOMAIN Ln.qs }
     /\ mode' = "idle"
-    /\ UNCHANGED <<qvars, sch, span, cur, hist, hdone, lprev, live, ldone, declared, children, refused, tcfg>>
+    /\ UNCHANGED <<qvars, sch, span, cur, hist, hdone, lprev, live, ldone, declared, children, defrp, refused, tcfg>>
 
 (* StartTask -> StartBatching -> checkDBRPs, then the real tickers run.       *)
 TrStart ==
     /\ IsEv("Start") /\ tcfg # NoCfg
-    /\ StartBatch(declared, children)
+    /\ StartBatch(declared, children, defrp)
     /\ Holds((Ln.err # "") <=> ~AllDeclared(declared, children))
     /\ Holds(StrictOK((Ln.err # "") <=> refused', "Start.err"))
     /\ UNCHANGED tcfg
@@ -171,7 +172,7 @@ TrStopped ==
                /\ Ln.hist[j].gboff = Ln.qs[i].gb.off)
     /\ issued' = issued \cup UNION { SeqToSet(Ln.qs[i].srcs) : i \in DOMAIN Ln.qs }
     /\ mode' = "idle"
-    /\ UNCHANGED <<qvars, svars, declared, children, refused, tcfg>>
+    /\ UNCHANGED <<qvars, svars, declared, children, defrp, refused, tcfg>>
 
 (* A task whose batch source has several |query and |queryFlux children:        *)
 (* "Batch" = the task as written (children in script order; the property does    *)
@@ -183,13 +184,13 @@ TrBatch ==
     /\ IsEv("Batch")
     /\ Ln.err = ""
     /\ tcfg' = [kind |-> "mixed"]
-    /\ declared' = SeqToSet(Ln.declared)
+    /\ declared' = SeqToSet(Ln.declared) /\ defrp' = ""
     /\ children' = [i \in DOMAIN Ln.children |-> ChildOf(Ln.children[i])]
     /\ UNCHANGED <<mode, qvars, svars, issued, refused>>
 QLSrcs(ch) == { ch[i].srcs : i \in { j \in DOMAIN ch : ch[j].kind = "ql" } }
 TrBQ ==
     /\ IsEv("BQ") /\ tcfg = [kind |-> "mixed"]
-    /\ StartBatch(declared, children)
+    /\ StartBatch(declared, children, defrp)
     /\ Holds(\A i \in DOMAIN Ln.issued : SeqToSet(Ln.issued[i]) \subseteq declared)        \* OnlyDeclaredDBRPs, observed
     /\ Holds((Ln.err # "") <=> ~AllDeclared(declared, children))                            \* RefusedIffUndeclared
     /\ Holds(IF Ln.err = "" THEN SeqToSet(Ln.issued) = QLSrcs(children) /\ Ln.nflux = Len(children) - Len(Ln.issued)
